@@ -4,6 +4,7 @@ programs with the expected output; the harness runs them; this module only compa
 import collections
 import os
 import vlib
+from props import bcommon
 
 
 def run(prop, tier, seed):
@@ -11,16 +12,16 @@ def run(prop, tier, seed):
     wd = vlib.workdir(prop)
     mod = os.path.join(vlib.SPEC, "props", "C28.tla")
     env = {"TIER": tier, "SEED": str(seed)}
-    enum_cases, res_e = vlib.gen_enumerate(prop, mod, env=env, workers=4, timeout=600)
-    nrand = 150 if tier == "quick" else 3000
-    rand_cases, res_r = vlib.gen_simulate(prop, mod, nrand, seed, env=env, timeout=600,
+    enum_cases, res_e = bcommon.gen_enumerate(prop, mod, env=env, timeout=800)
+    nrand = 100 if tier == "quick" else 1500
+    rand_cases, res_r = bcommon.gen_simulate(prop, mod, nrand, seed, env=env, timeout=800,
                                           cfg=os.path.join(vlib.SPEC, "props", "C28R.cfg"))
     cases = enum_cases + rand_cases
     if not cases:
         raise vlib.ToolError("C28 generator produced no cases")
     for c in cases:
         c["maxsteps"] = 20000000
-    obs = vlib.run_harness(cases, wd, timeout=30)[0]
+    obs = bcommon.run_harness(cases, wd, timeout=30)[0]
     not_compiled = 0
     for c, o in zip(cases, obs):
         if o.get("compile") != "ok":
@@ -46,9 +47,9 @@ def run(prop, tier, seed):
         "evaluations": lines, "distinct_nontrivial": distinct,
         "rule": "one program per type; evaluations = rendered texts compared (values x 7 routes: println, print, str..x, x..str, "
                 "x..x, x.str(), ToString.str(x)); distinct = distinct program texts. F0/F1: all leaf and depth-1 types over "
-                "{int,bool,void,string,float}; F2/F3: all chains of 8 one-hole constructor contexts of depth 2/3 over the 5 leaves "
+                "{int,bool,void,string,float} (quick: a seeded fifth of the 625 four-tuples); F2/F3: all chains of 8 one-hole constructor contexts of depth 2/3 over the 5 leaves "
                 "(F3: %s); R: tlc -simulate seed %d random types depth<=3, tuples<=4, arrays width<=3" %
-                ("all 2560" if tier == "thorough" else "seeded 1/8 sample", seed),
+                ("all 2560" if tier == "thorough" else "seeded 1/16 sample", seed),
         "exhaustive": True,
         "types_by_family": dict(by_fam), "types_by_outer_constructor": dict(by_ctor), "types_by_depth": dict(by_depth),
         "values_rendered": values, "programs_with_empty_arrays": sum(1 for c in cases if c["empties"]),
